@@ -509,6 +509,7 @@ type Engine struct {
 
 	results  Aggregate
 	deadline time.Time
+	seed     int64
 }
 
 type Aggregate struct {
@@ -533,6 +534,7 @@ type Aggregate struct {
 	HashInputs   int
 	MaxThreads   int
 	SolverErrors int
+	sampleMax    uint64
 }
 
 type PathSample struct {
@@ -540,6 +542,7 @@ type PathSample struct {
 	Status   string      `json:"status"`
 	Model    []NondetVal `json:"model,omitempty"`
 	Observes []string    `json:"observes,omitempty"`
+	hash     uint64
 }
 
 func newEngine(cfg *CheckConfig, prog *Program) *Engine {
@@ -617,8 +620,27 @@ func (e *Engine) done(res *PathResult, pending []WorkItem, solverErrs int) {
 		}
 		a.problemSeen[key]++
 	}
-	if len(a.Samples) < e.cfg.SampleCount && (res.Status == stOK) && res.Model != nil {
-		a.Samples = append(a.Samples, PathSample{traceString(res.Trace), res.Status.String(), res.Model, res.Observes})
+	if res.Status == stOK && res.Model != nil {
+		h := e.traceHash(res.Trace)
+		ps := PathSample{traceString(res.Trace), res.Status.String(), res.Model, res.Observes, h}
+		if len(a.Samples) < e.cfg.SampleCount {
+			a.Samples = append(a.Samples, ps)
+		} else if h < a.sampleMax {
+			// replace the sample with the largest hash
+			mi := 0
+			for k := range a.Samples {
+				if a.Samples[k].hash > a.Samples[mi].hash {
+					mi = k
+				}
+			}
+			a.Samples[mi] = ps
+		}
+		a.sampleMax = 0
+		for _, x := range a.Samples {
+			if x.hash > a.sampleMax {
+				a.sampleMax = x.hash
+			}
+		}
 	}
 	if e.cfg.MaxPaths > 0 && a.Paths >= e.cfg.MaxPaths && (len(e.queue) > 0 || e.active > 0) {
 		a.Truncated = true
